@@ -36,7 +36,13 @@ def _run(rec):
         return out
     try:
         if subd:
-            concretize_type(subd, subj.reg)
+            try:
+                concretize_type(subd, subj.reg)
+            except BaseException as e:  # noqa: BLE001  (SyntaxError included)
+                out["mism"].append({**base, "clause": "build", "expected": "the subclass builds", "actual": ["exc", type(e).__name__, str(e)[:160]]})
+                if _counter[0]:
+                    out["mism"].append({**base, "clause": "sentinel-executed", "expected": 0, "actual": _counter[0]})
+                return out
         if wire != ["skip"]:
             try:
                 kw = {"by_alias": True} if pos == "aliasflag" else {}
